@@ -304,13 +304,123 @@ func realTimerRun(t *testing.T, scenario string) (violations, late []string, det
 	return
 }
 
+// realTimerSecondConnection: an acceptor session object lives through two connections. The first
+// Logon announces a long interval (10 s) and the connection is dropped at once; the second Logon
+// announces 1 s and the peer stays silent. The keep-alive of the second connection must run on
+// the 1 s interval (timers armed for the first connection must not get in the way).
+func realTimerSecondConnection(t *testing.T) (violations, late []string, detail string) {
+	id := quickfix.SessionID{BeginString: "FIX.4.2", SenderCompID: "ENG", TargetCompID: "PEER", Qualifier: "second" + strconv.FormatInt(time.Now().UnixNano()%100000, 10)}
+	ss := quickfix.NewSessionSettings()
+	ss.Set(config.BeginString, id.BeginString)
+	ss.Set(config.SenderCompID, id.SenderCompID)
+	ss.Set(config.TargetCompID, id.TargetCompID)
+	app := &realApp{}
+	v, err := quickfix.VerifNewSession(id, quickfix.NewMemoryStoreFactory(), ss, quickfix.NewNullLogFactory(), app, false)
+	if err != nil {
+		t.Fatalf("harness: %v", err)
+	}
+	go v.RunLoop()
+	defer v.StopAsync()
+	p := peer.New("FIX.4.2", "PEER", "ENG")
+	t0 := time.Now()
+	app.t0 = t0
+	connect := func() (chan *bytes.Buffer, chan []byte, bool) {
+		for i := 0; i < 200; i++ {
+			// fresh channels for every attempt: a refused attempt leaves a forwarding goroutine on its inbound channel
+			in := make(chan *bytes.Buffer, 16)
+			out := make(chan []byte)
+			if err := v.ConnectAsync(in, out); err == nil {
+				return in, out, true
+			}
+			close(in)
+			time.Sleep(10 * time.Millisecond) // the previous connection is still being torn down
+		}
+		return nil, nil, false
+	}
+	// first connection: long interval, dropped immediately after the Logon answer
+	in1, out1, ok := connect()
+	if !ok {
+		return nil, []string{"first-connect-refused"}, ""
+	}
+	_, f := p.Next("A", p.LogonBody(10, false))
+	in1 <- bytes.NewBuffer(f)
+	select {
+	case <-out1:
+	case <-time.After(5 * time.Second):
+		return nil, []string{"no-logon-answer-on-first-connection"}, ""
+	}
+	close(in1)
+	go func() {
+		for range out1 {
+		}
+	}()
+	// second connection: 1 s interval, silent peer
+	in2, out2, ok := connect()
+	if !ok {
+		return nil, []string{"second-connect-refused"}, ""
+	}
+	_ = in2
+	_, f = p.Next("A", p.LogonBody(1, false))
+	start := time.Now()
+	in2 <- bytes.NewBuffer(f)
+	var mu sync.Mutex
+	var types []string
+	var at []time.Duration
+	closedAt := time.Duration(-1)
+	go func() {
+		for b := range out2 {
+			fs, _ := fixwire.Scan(b, nil)
+			mu.Lock()
+			types = append(types, fixwire.GetS(fs, 35))
+			at = append(at, time.Since(start))
+			mu.Unlock()
+		}
+		mu.Lock()
+		closedAt = time.Since(start)
+		mu.Unlock()
+	}()
+	worst := time.Duration(0)
+	deadline := time.Now().Add(9 * time.Second) // well below the 10 s of the first connection's interval
+	for time.Now().Before(deadline) {
+		mu.Lock()
+		cl := closedAt
+		mu.Unlock()
+		if cl >= 0 {
+			break
+		}
+		a := time.Now()
+		time.Sleep(50 * time.Millisecond)
+		if over := time.Since(a) - 50*time.Millisecond; over > worst {
+			worst = over
+		}
+	}
+	mu.Lock()
+	defer mu.Unlock()
+	detail = fmt.Sprintf("second connection (HeartBtInt 1 s after a first one with 10 s): frames %v at %v, closed at %v, OnLogout %v; worst oversleep of this test's own timer %v", types, at, closedAt, app.logouts, worst)
+	hasTR := false
+	for _, ty := range types {
+		if ty == "1" {
+			hasTR = true
+		}
+	}
+	switch {
+	case worst > 500*time.Millisecond:
+		late = append(late, "machine-stalled-during-window")
+	case !hasTR:
+		violations = append(violations, "no-test-request-within-9s-on-a-1s-interval")
+	case closedAt < 0:
+		violations = append(violations, "no-disconnect-within-9s-on-a-1s-interval")
+	}
+	return
+}
+
 func TestC20_RealTimers(t *testing.T) {
 	if !vk.Thorough() {
 		t.Skip("thorough tier only")
 	}
 	c := stats.Get("C20")
 	shard, shards := vk.Shard()
-	scenarios := []string{"silent-peer", "chatty-peer", "answered-test-request", "peer-test-request", "silent-peer-slow-callback"}
+	scenarios := []string{"silent-peer", "chatty-peer", "answered-test-request", "peer-test-request", "silent-peer-slow-callback", "second-connection-shorter-interval"}
 	for i := 0; i < 2*len(scenarios); i++ {
 		if i%shards != shard {
 			continue
@@ -319,7 +429,11 @@ func TestC20_RealTimers(t *testing.T) {
 		var violations, late []string
 		var detail string
 		for attempt := 0; attempt < 3; attempt++ {
-			violations, late, detail = realTimerRun(t, sc)
+			if sc == "second-connection-shorter-interval" {
+				violations, late, detail = realTimerSecondConnection(t)
+			} else {
+				violations, late, detail = realTimerRun(t, sc)
+			}
 			if len(violations) > 0 || len(late) == 0 {
 				break
 			}
